@@ -2,7 +2,10 @@
 Spec: server/AcceptDispatch.tla (C03_NoLostWake at every quiescent state + liveness form under fairness)."""
 import srvflow
 
-INV = ["T_C03_NoLostWake"]
+# a waiting connection is "eventually dispatched" only if the accept thread is alive and its listener is not stranded: the
+# predicates that say so (named after the properties that introduced them) decide C03 as well
+INV = ["T_C03_NoLostWake", "T_C08_NoPanic", "T_C08_NoSpin", "T_C05_ListenerLive", "T_C05_BackoffExpires",
+       "T_C05_WakesForEarliestDeadline"]
 DESIGN = ["MC_core_quick.cfg", "MC_core_l1.cfg", "MC_core_w1.cfg", "MC_core_2l.cfg", "MC_cmd_quick.cfg"]
 EDGES = ["MC_core_quick.cfg", "MC_core_l1.cfg", "MC_core_w1.cfg", "MC_cmd_quick.cfg"]
 THOROUGH = ["MC_core_w3.cfg", "MC_core_l3.cfg", "MC_core_l4.cfg", "MC_core_w3l3.cfg", "MC_core_w3c7.cfg", "MC_core_l4c9.cfg", "MC_core_w3l3c7.cfg", "MC_cmd_w2.cfg"]
@@ -52,7 +55,7 @@ def run(ctx):
     counter_protocol(ctx)
     srvflow.run_check(
         ctx, design=DESIGN, edge_cfgs=EDGES, negs=NEGS, invariants=INV, corpus=["server_core.ndjson", "server_cmd.ndjson", "server_cmd_sat.ndjson", "server_fault.ndjson"],
-        random_flavour=("core", "fault", "mix"), random_quick=300,
+        random_flavour=("core", "fault", "mix", "cmd"), random_quick=360,
         thorough_design=THOROUGH, live=["LIVE_C03.cfg", "LIVE_C03_w2.cfg"],
         neg_live=[("NEG_LIVE_WakeAtLimit.cfg", ["temporal"])], nontrivial=nontrivial,
         signature=lambda rec, pred, s: "%s:W%d:L%d" % (pred, s["cfg"]["W"], s["cfg"]["Limit"]),
